@@ -298,3 +298,59 @@ pub fn obscure_action(action: Obsc) -> ObscureAction {
         _ => ObscureAction::Elide,
     }
 }
+
+/// Target-set obscuring through one of the twelve public entry points (set / array / single target,
+/// with or without an explicit action, removing or revealing). `entry` picks the family; entry points
+/// that cannot express the request (no action parameter for a non-elide action, single-target form for
+/// a set that is not a singleton) fall back to the general `*_set_with_action` form.
+pub fn elide_via(env: &Envelope, targets: &BTreeSet<D>, revealing: bool, action: Obsc, entry: u64) -> Envelope {
+    let set = to_lib_set(targets);
+    let act = obscure_action(action);
+    let digests: Vec<Digest> = targets.iter().map(to_lib_digest).collect();
+    let providers: Vec<&dyn DigestProvider> = digests.iter().map(|d| d as &dyn DigestProvider).collect();
+    let plain = matches!(action, Obsc::Elided);
+    match entry % 6 {
+        1 => {
+            if revealing {
+                env.elide_revealing_array_with_action(&providers, &act)
+            } else {
+                env.elide_removing_array_with_action(&providers, &act)
+            }
+        }
+        2 if digests.len() == 1 => {
+            if revealing {
+                env.elide_revealing_target_with_action(&digests[0], &act)
+            } else {
+                env.elide_removing_target_with_action(&digests[0], &act)
+            }
+        }
+        3 if plain => {
+            if revealing {
+                env.elide_revealing_set(&set)
+            } else {
+                env.elide_removing_set(&set)
+            }
+        }
+        4 if plain => {
+            if revealing {
+                env.elide_revealing_array(&providers)
+            } else {
+                env.elide_removing_array(&providers)
+            }
+        }
+        5 if plain && digests.len() == 1 => {
+            if revealing {
+                env.elide_revealing_target(&digests[0])
+            } else {
+                env.elide_removing_target(&digests[0])
+            }
+        }
+        _ => {
+            if revealing {
+                env.elide_revealing_set_with_action(&set, &act)
+            } else {
+                env.elide_removing_set_with_action(&set, &act)
+            }
+        }
+    }
+}
